@@ -32,8 +32,11 @@ def _cases():
     from .vacuous import vacuous_rank_tests
     from .viewparam import merging_views_of_parameters
     fires = lambda rs: any((not r.get("ok", False)) if isinstance(r, dict) else True for r in rs)
-    from .dropped import discarded_results, vacuous_any_of_self_comparison
+    from .dropped import discarded_results, inplace_on_parameter_views, vacuous_any_of_self_comparison
     return [
+        ("G43 in-place operation on a view of a caller's tensor", lambda f: bool(inplace_on_parameter_views(f)), "f",
+         "def f(x, slices):\n    start = slices[..., 0].contiguous()\n    s = start.clamp_min_(0)\n    return x[s]\n",
+         "def f(x, slices):\n    start = slices[..., 0].contiguous()\n    s = start.clamp_min(0)\n    lo = (-start).clamp_min_(0)\n    return x[s], lo\n"),
         ("G42 vacuous any() of a comparison with the first entry", lambda f: bool(vacuous_any_of_self_comparison(f)), "f",
          "def f(x):\n    return (x == x.flatten()[0]).any()\n",
          "def f(x):\n    return (x == x.flatten()[0]).all()\n"),
